@@ -1093,6 +1093,11 @@ func (c *Conn) Read(b []byte) (int, error) {
 		if err := c.readRecord(); err != nil {
 			return 0, err
 		}
+		// 握手完成后收到握手消息（重协商）：TLCP 不支持重协商，必须拒绝；
+		// 否则这些记录会无限累积在 c.hand 中且 Read 永不返回。
+		if c.hand.Len() > 0 {
+			return 0, c.in.setErrorLocked(c.sendAlert(alertNoRenegotiation))
+		}
 	}
 	n, _ := c.input.Read(b)
 
